@@ -5,6 +5,7 @@ From Coq Require Import NArith ZArith List Bool Arith Lia.
 From LCP Require Import Base.CheckedMem Gen.Repo_net Net.NetRW Net.NetAccept Net.NetConnect.
 From LCP Require Import Net.NetbufRead Net.NetbufWrite Net.NetWorld.
 From LCP Require Import Net.NetRWProofs Net.NetAcceptProofs Net.NetConnectProofs Net.NetbufReadProofs.
+From LCP Require Import Net.NetWorldProofs.
 Import ListNotations.
 
 (* ---------------------------------------------------------------- retry sets *)
@@ -136,4 +137,72 @@ Proof.
   assert (E : last_peek f9_log = Some [6;7;8;9;10;11;12;13;14;15]%N) by (vm_compute; reflexivity).
   split; [exact E|].
   unfold strict_prefix_ok. rewrite E. unfold f9_sent. cbn [length firstn]. intros H. discriminate.
+Qed.
+
+(* ---------------------------------------------------------------- end-of-stream / error after a partial arrival *)
+(* Same mechanism as F9, without any cancel: the peer sends 0,1,2 and closes while the application
+   waits for 5 bytes.  The network_read started by the wait receives the 3 bytes into the reader's
+   buffer, then sees end-of-stream and reports 0 (its contract: 0 on EOF, whatever arrived before);
+   callback_read does not advance datalen, so the wait callback gets status 1 with NONE of the 3
+   bytes visible: "exactly the bytes the peer sent up to the point where end-of-stream is
+   reported" is false of the code in its strict reading.  Witness = corpus/net/eof_partial_loss.case
+   run on the composed model. *)
+Definition eof_script : list op :=
+  [OpNrInit 5; OpNrWait 5 []; OpFeed 5 false [KData [0;1;2]%N; KData []]; OpRun; OpNrPeek].
+
+Definition eof_log : list logitem :=
+  run_script read_retry write_retry accept_retry (N.to_nat WBUFLEN) (N.to_nat RBUF_INIT)
+             (N.to_nat RBUF_GROW) 238%N 1000 eof_script.
+
+Definition eof_sent : list N := [0;1;2]%N.
+
+(* status and view of the last wait callback *)
+Definition last_nrcb (log : list logitem) : option (Z * list N) :=
+  fold_left (fun acc i => match i with LgNrCb st pk => Some (st, pk) | _ => acc end) log None.
+
+(* bytes recv delivered into the reader's buffer, by count *)
+Definition nb_received (log : list logitem) : nat :=
+  fold_left (fun n i => match i with LgRecv _ WhoNetbuf _ _ _ (RetN k) => n + k | _ => n end) log 0%nat.
+
+(* strict statement: with nothing consumed, when end-of-stream (status 1) or an error (-1) is
+   reported the reader shows everything the peer sent before it *)
+Definition strict_eof_ok (sent : list N) (log : list logitem) : Prop :=
+  match last_nrcb log with
+  | Some (st, pk) => st <> 0%Z -> pk = sent
+  | None => True
+  end.
+
+Lemma reader_eof_partial_loss_refuted_lemma :
+  nb_received eof_log = 3%nat /\ last_nrcb eof_log = Some (1%Z, []) /\ last_peek eof_log = Some [] /\
+  ~ strict_eof_ok eof_sent eof_log.
+Proof.
+  assert (E : last_nrcb eof_log = Some (1%Z, [])) by (vm_compute; reflexivity).
+  split; [vm_compute; reflexivity|]. split; [exact E|]. split; [vm_compute; reflexivity|].
+  unfold strict_eof_ok. rewrite E. unfold eof_sent. intros H.
+  specialize (H ltac:(discriminate)). discriminate.
+Qed.
+
+(* ---------------------------------------------------------------- non-vacuity of the composed cancel theorems *)
+(* corpus/net/rw_basic.case, last line: a read is cancelled after a partial arrival, a second read
+   on the same descriptor is accepted and completes; no callback of request 1 *)
+Example cancel_world_instance :
+  let ops := [OpRead 1 5 8 8 []; OpFeed 5 false [KData [1;2;3]%N]; OpRun; OpCancel 1;
+              OpRead 2 5 4 1 []; OpFeed 5 false [KData [4;5;6;7;8;9]%N]; OpRun] in
+  world_events read_retry write_retry accept_retry (N.to_nat WBUFLEN) (N.to_nat RBUF_INIT)
+               (N.to_nat RBUF_GROW) 238%N 1000 ops =
+    [LgStart 0 1 true; LgRecv 5 (WhoUser 1) 8 0 8 (RetN 3); LgCancel 1; LgStart 0 2 true;
+     LgRecv 5 (WhoUser 2) 4 0 4 (RetN 4); LgCb 2 4%Z (Some [4;5;6;7]%N)].
+Proof. vm_compute. reflexivity. Qed.
+
+(* connect: the hypotheses of C06_connect_first_success concern the addresses reached only.  The
+   third address never answers and there is no timeout, but the second one connects first. *)
+Example connect_unreached_instance :
+  let sas := [OConnFail ECONNREFUSED; OPending EINPROGRESS LOk; OPending EINPROGRESS LNever] in
+  reached sas = 2%nat /\ Forall (no_hang false) (firstn (reached sas) sas) /\ ~ Forall (no_hang false) sas /\
+  exists t, conn_run false sas = Ok (t, Finished 0%Z) /\ callbacks t = [Some 1%nat].
+Proof.
+  cbn zeta. split; [reflexivity|]. split; [repeat constructor|]. split.
+  - intros H. inversion H as [|? ? _ H1]; subst. inversion H1 as [|? ? _ H2]; subst.
+    inversion H2 as [|? ? H3 _]; subst. cbn in H3. discriminate.
+  - eexists. split; [vm_compute; reflexivity|]. reflexivity.
 Qed.
